@@ -129,4 +129,287 @@ theorem units_eq_nil (bs : List Nat) : units bs = [] ↔ bs = [] := by
   | nil => simp
   | cons b t => simp [units_cons]
 
+
+/-! ### encode / decode -/
+
+theorem decodeRune_wf2 (b0 b1 : Nat) (rest : List Nat) (lo hi : Nat) (hl : lead b0 = some (2, lo, hi))
+    (h1 : lo ≤ b1 ∧ b1 ≤ hi) : decodeRune (b0 :: b1 :: rest) = ((b0 % 32) * 64 + b1 % 64, 2) := by
+  have hs := lead_some hl
+  have h0 : ¬ b0 < 0x80 := by omega
+  have h3 : ¬ (b1 < lo ∨ hi < b1) := by omega
+  simp [decodeRune, h0, hl, h3]
+
+theorem decodeRune_wf3 (b0 b1 b2 : Nat) (rest : List Nat) (lo hi : Nat) (hl : lead b0 = some (3, lo, hi))
+    (h1 : lo ≤ b1 ∧ b1 ≤ hi) (h2 : isCont b2 = true) :
+    decodeRune (b0 :: b1 :: b2 :: rest) = ((b0 % 16) * 4096 + (b1 % 64) * 64 + b2 % 64, 3) := by
+  have hs := lead_some hl
+  have h0 : ¬ b0 < 0x80 := by omega
+  have h3 : ¬ (b1 < lo ∨ hi < b1) := by omega
+  simp [decodeRune, h0, hl, h3, h2]
+
+theorem decodeRune_wf4 (b0 b1 b2 b3 : Nat) (rest : List Nat) (lo hi : Nat) (hl : lead b0 = some (4, lo, hi))
+    (h1 : lo ≤ b1 ∧ b1 ≤ hi) (h2 : isCont b2 = true) (h3 : isCont b3 = true) :
+    decodeRune (b0 :: b1 :: b2 :: b3 :: rest) =
+      ((b0 % 8) * 262144 + (b1 % 64) * 4096 + (b2 % 64) * 64 + b3 % 64, 4) := by
+  have hs := lead_some hl
+  have h0 : ¬ b0 < 0x80 := by omega
+  have h4 : ¬ (b1 < lo ∨ hi < b1) := by omega
+  simp [decodeRune, h0, hl, h4, h2, h3]
+
+theorem isCont_iff (b : Nat) : isCont b = true ↔ 0x80 ≤ b ∧ b ≤ 0xBF := by simp [isCont]
+
+/-- **decode ∘ encode**: `utf8.DecodeRune` on the encoding of a scalar value, whatever follows. -/
+theorem decodeRune_encode (r : Nat) (hr : IsScalar r) (rest : List Nat) :
+    decodeRune (encodeRune r ++ rest) = (r, (encodeRune r).length) := by
+  unfold IsScalar at hr
+  unfold encodeRune
+  by_cases c1 : r < 0x80
+  · simp [c1, decodeRune]
+  by_cases c2 : r < 0x800
+  · simp only [c1, c2, if_true, if_false, List.cons_append, List.nil_append, List.length_cons, List.length_nil]
+    have hl : lead (0xC0 + r / 64) = some (2, 0x80, 0xBF) := by
+      have : 0xC2 ≤ 0xC0 + r / 64 ∧ 0xC0 + r / 64 ≤ 0xDF := by omega
+      simp [lead, this]
+    rw [decodeRune_wf2 _ _ _ _ _ hl (by omega)]
+    congr 1; omega
+  by_cases c3 : r < 0x10000
+  · simp only [c1, c2, c3, if_true, if_false, List.cons_append, List.nil_append, List.length_cons, List.length_nil]
+    have hc2 : isCont (0x80 + r % 64) = true := (isCont_iff _).mpr (by omega)
+    have hval : (0xE0 + r / 4096) % 16 * 4096 + (0x80 + r / 64 % 64) % 64 * 64 + (0x80 + r % 64) % 64 = r := by omega
+    by_cases d0 : r / 4096 = 0
+    · have hl : lead (0xE0 + r / 4096) = some (3, 0xA0, 0xBF) := by simp [lead, d0]
+      rw [decodeRune_wf3 _ _ _ _ _ _ hl (by omega) hc2, hval]
+    by_cases d1 : r / 4096 ≤ 12
+    · have hl : lead (0xE0 + r / 4096) = some (3, 0x80, 0xBF) := by
+        have h1 : ¬ (0xC2 ≤ 0xE0 + r / 4096 ∧ 0xE0 + r / 4096 ≤ 0xDF) := by omega
+        have h2 : ¬ (0xE0 + r / 4096 = 0xE0) := by omega
+        have h3 : 0xE1 ≤ 0xE0 + r / 4096 ∧ 0xE0 + r / 4096 ≤ 0xEC := by omega
+        simp only [lead, h1, h2, h3, if_false, and_self, if_true]
+      rw [decodeRune_wf3 _ _ _ _ _ _ hl (by omega) hc2, hval]
+    by_cases d2 : r / 4096 = 13
+    · have hl : lead (0xE0 + r / 4096) = some (3, 0x80, 0x9F) := by simp [lead, d2]
+      rw [decodeRune_wf3 _ _ _ _ _ _ hl (by omega) hc2, hval]
+    · have hl : lead (0xE0 + r / 4096) = some (3, 0x80, 0xBF) := by
+        have h1 : ¬ (0xC2 ≤ 0xE0 + r / 4096 ∧ 0xE0 + r / 4096 ≤ 0xDF) := by omega
+        have h2 : ¬ (0xE0 + r / 4096 = 0xE0) := by omega
+        have h3 : ¬ (0xE1 ≤ 0xE0 + r / 4096 ∧ 0xE0 + r / 4096 ≤ 0xEC) := by omega
+        have h4 : ¬ (0xE0 + r / 4096 = 0xED) := by omega
+        have h5 : 0xEE ≤ 0xE0 + r / 4096 ∧ 0xE0 + r / 4096 ≤ 0xEF := by omega
+        simp only [lead, h1, h2, h3, h4, h5, if_false, and_self, if_true]
+      rw [decodeRune_wf3 _ _ _ _ _ _ hl (by omega) hc2, hval]
+  · simp only [c1, c2, c3, if_false, List.cons_append, List.nil_append, List.length_cons, List.length_nil]
+    have hc2 : isCont (0x80 + r / 64 % 64) = true := (isCont_iff _).mpr (by omega)
+    have hc3 : isCont (0x80 + r % 64) = true := (isCont_iff _).mpr (by omega)
+    have hval : (0xF0 + r / 262144) % 8 * 262144 + (0x80 + r / 4096 % 64) % 64 * 4096 +
+        (0x80 + r / 64 % 64) % 64 * 64 + (0x80 + r % 64) % 64 = r := by omega
+    by_cases d0 : r / 262144 = 0
+    · have hl : lead (0xF0 + r / 262144) = some (4, 0x90, 0xBF) := by simp [lead, d0]
+      rw [decodeRune_wf4 _ _ _ _ _ _ _ hl (by omega) hc2 hc3, hval]
+    by_cases d1 : r / 262144 ≤ 3
+    · have hl : lead (0xF0 + r / 262144) = some (4, 0x80, 0xBF) := by
+        have h1 : ¬ (0xC2 ≤ 0xF0 + r / 262144 ∧ 0xF0 + r / 262144 ≤ 0xDF) := by omega
+        have h2 : ¬ (0xF0 + r / 262144 = 0xE0) := by omega
+        have h3 : ¬ (0xE1 ≤ 0xF0 + r / 262144 ∧ 0xF0 + r / 262144 ≤ 0xEC) := by omega
+        have h4 : ¬ (0xF0 + r / 262144 = 0xED) := by omega
+        have h5 : ¬ (0xEE ≤ 0xF0 + r / 262144 ∧ 0xF0 + r / 262144 ≤ 0xEF) := by omega
+        have h6 : ¬ (0xF0 + r / 262144 = 0xF0) := by omega
+        have h7 : 0xF1 ≤ 0xF0 + r / 262144 ∧ 0xF0 + r / 262144 ≤ 0xF3 := by omega
+        simp only [lead, h1, h2, h3, h4, h5, h6, h7, if_false, and_self, if_true]
+      rw [decodeRune_wf4 _ _ _ _ _ _ _ hl (by omega) hc2 hc3, hval]
+    · have d2 : r / 262144 = 4 := by omega
+      have hl : lead (0xF0 + r / 262144) = some (4, 0x80, 0x8F) := by simp [lead, d2]
+      rw [decodeRune_wf4 _ _ _ _ _ _ _ hl (by omega) hc2 hc3, hval]
+
+
+theorem lead_char {b sz lo hi : Nat} (h : lead b = some (sz, lo, hi)) :
+    (0xC2 ≤ b ∧ b ≤ 0xDF ∧ sz = 2 ∧ lo = 0x80 ∧ hi = 0xBF) ∨ (b = 0xE0 ∧ sz = 3 ∧ lo = 0xA0 ∧ hi = 0xBF) ∨
+    (0xE1 ≤ b ∧ b ≤ 0xEC ∧ sz = 3 ∧ lo = 0x80 ∧ hi = 0xBF) ∨ (b = 0xED ∧ sz = 3 ∧ lo = 0x80 ∧ hi = 0x9F) ∨
+    (0xEE ≤ b ∧ b ≤ 0xEF ∧ sz = 3 ∧ lo = 0x80 ∧ hi = 0xBF) ∨ (b = 0xF0 ∧ sz = 4 ∧ lo = 0x90 ∧ hi = 0xBF) ∨
+    (0xF1 ≤ b ∧ b ≤ 0xF3 ∧ sz = 4 ∧ lo = 0x80 ∧ hi = 0xBF) ∨ (b = 0xF4 ∧ sz = 4 ∧ lo = 0x80 ∧ hi = 0x8F) := by
+  unfold lead at h
+  by_cases h1 : 0xC2 ≤ b ∧ b ≤ 0xDF
+  · rw [if_pos h1] at h; cases h; omega
+  rw [if_neg h1] at h
+  by_cases h2 : b = 0xE0
+  · rw [if_pos h2] at h; cases h; omega
+  rw [if_neg h2] at h
+  by_cases h3 : 0xE1 ≤ b ∧ b ≤ 0xEC
+  · rw [if_pos h3] at h; cases h; omega
+  rw [if_neg h3] at h
+  by_cases h4 : b = 0xED
+  · rw [if_pos h4] at h; cases h; omega
+  rw [if_neg h4] at h
+  by_cases h5 : 0xEE ≤ b ∧ b ≤ 0xEF
+  · rw [if_pos h5] at h; cases h; omega
+  rw [if_neg h5] at h
+  by_cases h6 : b = 0xF0
+  · rw [if_pos h6] at h; cases h; omega
+  rw [if_neg h6] at h
+  by_cases h7 : 0xF1 ≤ b ∧ b ≤ 0xF3
+  · rw [if_pos h7] at h; cases h; omega
+  rw [if_neg h7] at h
+  by_cases h8 : b = 0xF4
+  · rw [if_pos h8] at h; cases h; omega
+  rw [if_neg h8] at h
+  cases h
+
+/-- **encode ∘ decode**: whenever `utf8.DecodeRune` does not report an invalid byte, the rune is a
+    scalar value and the bytes consumed are exactly its encoding (no overlong form, no surrogate,
+    nothing above U+10FFFF, no truncated sequence is ever accepted). -/
+theorem decodeRune_valid (b : Nat) (t : List Nat)
+    (h : ¬((decodeRune (b :: t)).1 = runeError ∧ (decodeRune (b :: t)).2 = 1)) :
+    IsScalar (decodeRune (b :: t)).1 ∧
+    encodeRune (decodeRune (b :: t)).1 = (b :: t).take (decodeRune (b :: t)).2 := by
+  simp only [decodeRune] at h ⊢
+  by_cases h0 : b < 0x80
+  · simp only [h0, if_true, IsScalar, encodeRune, List.take_succ_cons, List.take_zero]
+    exact ⟨by omega, trivial⟩
+  simp only [h0, if_false] at h ⊢
+  cases hl : lead b with
+  | none => simp [hl] at h
+  | some x =>
+    obtain ⟨sz, lo, hi⟩ := x
+    have hc := lead_char hl
+    simp only [hl] at h ⊢
+    revert h
+    repeat' split
+    all_goals intro h
+    all_goals first
+      | (exact absurd ⟨rfl, rfl⟩ h)
+      | (simp only [isCont, Bool.not_eq_eq_eq_not, Bool.not_true, Bool.and_eq_false_iff, decide_eq_false_iff_not,
+           List.length_cons, not_or, Nat.not_lt] at *
+         refine ⟨by unfold IsScalar; omega, ?_⟩
+         unfold encodeRune
+         repeat' split
+         all_goals first
+           | omega
+           | (simp only [List.take_succ_cons, List.take_zero, List.cons.injEq, and_true]; omega))
+
+
+theorem encodeRune_length (r : Nat) : 1 ≤ (encodeRune r).length ∧ ((encodeRune r).length = 1 → r < 0x80) := by
+  unfold encodeRune
+  repeat' split
+  all_goals simp
+  all_goals omega
+
+theorem unit1_encode (r : Nat) (hr : IsScalar r) (rest : List Nat) :
+    unit1 (encodeRune r ++ rest) = ⟨r, false, (encodeRune r).length⟩ := by
+  have hd := decodeRune_encode r hr rest
+  have hl := encodeRune_length r
+  unfold unit1
+  rw [hd]
+  have : ¬ (r = runeError ∧ (encodeRune r).length = 1) := by
+    intro ⟨h1, h2⟩
+    have := hl.2 h2
+    simp only [runeError] at h1
+    omega
+  simp only [this, if_false]
+
+/-- The units of `encoding of a scalar ++ rest`: that scalar, then the units of the rest. -/
+theorem units_encode (r : Nat) (hr : IsScalar r) (rest : List Nat) :
+    units (encodeRune r ++ rest) = ⟨r, false, (encodeRune r).length⟩ :: units rest := by
+  have hl := encodeRune_length r
+  cases he : encodeRune r with
+  | nil => rw [he] at hl; simp at hl
+  | cons b t =>
+    have hu := unit1_encode r hr rest
+    rw [he] at hu
+    simp only [List.cons_append] at hu ⊢
+    rw [units_cons, hu]
+    simp only [he, List.length_cons]
+    congr 1
+    have : (b :: (t ++ rest)) = (b :: t) ++ rest := rfl
+    rw [this, List.drop_append_of_le_length (by simp)]
+    simp
+
+/-- A byte at which no well-formed sequence starts is one unit: itself. -/
+theorem units_invalid (b : Nat) (t : List Nat)
+    (h : (decodeRune (b :: t)).1 = runeError ∧ (decodeRune (b :: t)).2 = 1) :
+    units (b :: t) = ⟨b, true, 1⟩ :: units t := by
+  rw [units_cons]
+  have : unit1 (b :: t) = ⟨b, true, 1⟩ := by simp [unit1, h]
+  rw [this]
+  rfl
+
+/-- A unit is invalid exactly when no encoding of a scalar value is a prefix of the stream there. -/
+theorem unit1_inv_iff (b : Nat) (t : List Nat) :
+    (unit1 (b :: t)).inv = true ↔ ∀ r, IsScalar r → ¬ (encodeRune r <+: b :: t) := by
+  constructor
+  · intro hinv r hr ⟨rest, hp⟩
+    have := unit1_encode r hr rest
+    rw [hp] at this
+    rw [this] at hinv
+    cases hinv
+  · intro h
+    by_cases hv : (decodeRune (b :: t)).1 = runeError ∧ (decodeRune (b :: t)).2 = 1
+    · simp [unit1, hv]
+    · exfalso
+      obtain ⟨h1, h2⟩ := decodeRune_valid b t hv
+      exact h _ h1 ⟨(b :: t).drop (decodeRune (b :: t)).2, by rw [h2]; exact List.take_append_drop _ _⟩
+
+/-- A valid unit is a scalar value and its bytes are its encoding; an invalid one is one byte. -/
+theorem unit1_bytes (b : Nat) (t : List Nat) :
+    (unit1 (b :: t)).bytes = (b :: t).take (unit1 (b :: t)).sz ∧
+    ((unit1 (b :: t)).inv = false → IsScalar (unit1 (b :: t)).raw) := by
+  by_cases hv : (decodeRune (b :: t)).1 = runeError ∧ (decodeRune (b :: t)).2 = 1
+  · have : unit1 (b :: t) = ⟨b, true, 1⟩ := by simp [unit1, hv]
+    rw [this]
+    simp [U.bytes]
+  · obtain ⟨h1, h2⟩ := decodeRune_valid b t hv
+    have : unit1 (b :: t) = ⟨(decodeRune (b :: t)).1, false, (decodeRune (b :: t)).2⟩ := by
+      simp only [unit1, hv, if_false]
+    rw [this]
+    exact ⟨by simpa [U.bytes] using h2, fun _ => h1⟩
+
+/-- **Nothing lost at the byte level**: the bytes of the units, concatenated, are the stream; every
+    valid unit is a scalar value. -/
+theorem units_bytes (bs : List Nat) :
+    (units bs).flatMap U.bytes = bs ∧ ∀ u ∈ units bs, u.inv = false → IsScalar u.raw := by
+  induction hn : bs.length using Nat.strongRecOn generalizing bs with
+  | _ n ih =>
+    cases bs with
+    | nil => simp
+    | cons b t =>
+      have hs := unit1_sz b t
+      have hb := unit1_bytes b t
+      rw [units_cons]
+      have hlen : ((b :: t).drop (unit1 (b :: t)).sz).length < n := by
+        rw [← hn]; simp only [List.length_drop, List.length_cons]; omega
+      obtain ⟨i1, i2⟩ := ih _ hlen _ rfl
+      refine ⟨?_, ?_⟩
+      · simp only [List.flatMap_cons, i1, hb.1]
+        exact List.take_append_drop _ _
+      · intro u hu
+        rcases List.mem_cons.mp hu with rfl | hu
+        · exact hb.2
+        · exact i2 u hu
+
+/-! ### `decodeRunes` -/
+
+@[simp] theorem decodeRunes_nil : decodeRunes [] = [] := rfl
+
+/-- **decode (encode r ++ rest) = r :: decode rest** for every scalar value. -/
+theorem decodeRunes_encode (r : Nat) (hr : IsScalar r) (rest : List Nat) :
+    decodeRunes (encodeRune r ++ rest) = r :: decodeRunes rest := by
+  simp [decodeRunes, units_encode r hr rest]
+
+/-- An invalid byte is delivered as itself. -/
+theorem decodeRunes_invalid (b : Nat) (t : List Nat) (h : ∀ r, IsScalar r → ¬ (encodeRune r <+: b :: t)) :
+    decodeRunes (b :: t) = b :: decodeRunes t := by
+  have hinv := (unit1_inv_iff b t).mpr h
+  have hv : (decodeRune (b :: t)).1 = runeError ∧ (decodeRune (b :: t)).2 = 1 := by
+    by_cases hv : (decodeRune (b :: t)).1 = runeError ∧ (decodeRune (b :: t)).2 = 1
+    · exact hv
+    · simp [unit1, hv] at hinv
+  simp [decodeRunes, units_invalid b t hv]
+
+/-- The encoding of a list of scalar values decodes to that list. -/
+theorem decodeRunes_encodeAll (rs : List Nat) (h : ∀ r ∈ rs, IsScalar r) :
+    decodeRunes (rs.flatMap encodeRune) = rs := by
+  induction rs with
+  | nil => rfl
+  | cons r rs ih =>
+    simp only [List.flatMap_cons]
+    rw [decodeRunes_encode r (h r (by simp)), ih (fun r' hr' => h r' (by simp [hr']))]
+
 end VaxisModel.Lemmas.ParserUtf8
